@@ -127,10 +127,16 @@ class _CutIter:
             if not hasattr(ctx, "ghost"):
                 ctx.ghost = {}
             ctx.ghost.setdefault("cut_index", {})[cut.name] = j
+            if getattr(cut, "on_enter", None):
+                cut.on_enter(self.frame.f_locals, j)
             _havoc(ctx, self.state, cut, j, "pre", self._inv)
             return seq.at(j)
         if self.phase == 1:
             self.phase = 2
+            if getattr(cut, "step", None):
+                # transition obligations: relate the state after one arbitrary iteration to the state before
+                for nm, f in cut.step(self.frame.f_locals, self.j).items():
+                    ctx.loop_obligations.append(("step", cut.name, 1, lambda i, nm=nm, f=f: {nm: f}))
             snap = _snapshot(self.state)
             n = cut.length_of(snap)
             j1 = alg.add(self.j, 1)
